@@ -3,7 +3,6 @@ import MythVerif.Proofs.WsQueueTsoTac
 namespace MythVerif.WsqTso
 open MythVerif.Wsq
 
-set_option maxHeartbeats 4000000 in
 theorem f_T_baseI_pq (s : St) (p : Pid) (e0 : Elem) (ok : Bool) : Inv s → s.opc = .pq → s.lock = .thief p →
     s.bufT p = [.baseI (s.lb - 1) e0] → s.tpc p = .tp4 ok → s.ptr (s.lb - 1) = some e0 →
     Inv (applySto { s with bufT := upd s.bufT p [] } (.baseI (s.lb - 1) e0)) := by
@@ -16,7 +15,6 @@ theorem f_T_baseI_pq (s : St) (p : Pid) (e0 : Elem) (ok : Bool) : Inv s → s.op
   case mwin => simp only [hopc, resetting, upd_apply, applySto]; exact hmw
   tso_goalsO h hopc
 
-set_option maxHeartbeats 4000000 in
 theorem f_T_baseI_po1 (s : St) (p : Pid) (e0 : Elem) (ok : Bool) : Inv s → s.opc = .po1 → s.lock = .thief p →
     s.bufT p = [.baseI (s.lb - 1) e0] → s.tpc p = .tp4 ok → s.ptr (s.lb - 1) = some e0 →
     Inv (applySto { s with bufT := upd s.bufT p [] } (.baseI (s.lb - 1) e0)) := by
@@ -29,7 +27,6 @@ theorem f_T_baseI_po1 (s : St) (p : Pid) (e0 : Elem) (ok : Bool) : Inv s → s.o
   case mwin => simp only [hopc, resetting, upd_apply, applySto]; exact hmw
   tso_goalsO h hopc
 
-set_option maxHeartbeats 4000000 in
 theorem f_T_baseI_pof (s : St) (p : Pid) (e0 : Elem) (ok : Bool) (t) : Inv s → s.opc = .pof t → s.lock = .thief p →
     s.bufT p = [.baseI (s.lb - 1) e0] → s.tpc p = .tp4 ok → s.ptr (s.lb - 1) = some e0 →
     Inv (applySto { s with bufT := upd s.bufT p [] } (.baseI (s.lb - 1) e0)) := by
